@@ -27,6 +27,8 @@ STR_CHILD = {"StartAt": "P", "States": {"P": {"Type": "Pass", "Result": "just te
 ECHO_CHILD = {"StartAt": "P", "States": {"P": {"Type": "Pass", "End": True}}}
 BAD_CHILD = {"StartAt": "F", "States": {"F": {"Type": "Fail", "Error": "Boom", "Cause": "why"}}}
 TASK_CHILD = {"StartAt": "T", "States": {"T": {"Type": "Task", "Resource": sim.FN + "g", "End": True}}}
+# children whose output is an empty or "falsy" JSON value
+FALSY_CHILDREN = [({"StartAt": "P", "States": {"P": {"Type": "Pass", "Result": v, "End": True}}}, "falsy:" + n) for v, n in (({}, "{}"), ([], "[]"), (0, "0"), (False, "false"), ("", "empty string"))]
 SLOW_CHILD = {"StartAt": "W", "States": {"W": {"Type": "Wait", "Seconds": 50, "Next": "T2"}, "T2": {"Type": "Task", "Resource": sim.FN + "g", "End": True}}}
 
 
@@ -73,7 +75,7 @@ def main():
     cases, descs = [], []
     n_sync = 0
     for form in (0, 1, 2, 3):
-        for cdef, cname in ((OK_CHILD, "object"), (STR_CHILD, "string"), (ECHO_CHILD, "echo"), (BAD_CHILD, "fails"), (TASK_CHILD, "task")):
+        for cdef, cname in ((OK_CHILD, "object"), (STR_CHILD, "string"), (ECHO_CHILD, "echo"), (BAD_CHILD, "fails"), (TASK_CHILD, "task")) + tuple(FALSY_CHILDREN):
             for ctype in ("STANDARD", "EXPRESS"):
                 for wrap in (None, "parallel", "map"):
                     if not thorough and wrap and cname not in ("object", "fails"):
@@ -262,8 +264,9 @@ def main():
                 for req in w.requests:
                     if isinstance(req["body"], dict) and req["body"].get("i") == j and not req["answered"]:
                         if kind == "plain":
-                            w.reply(req, {"ordinary": "reply"})
-                            ops.append("TPlainReply %d" % j); log.append(["ordinary rpc reply", j])
+                            plain = r.choice([{"ordinary": "reply"}, {}, "accepted", 202, True, [], None])      # the worker's own reply need not be a JSON object
+                            w.reply(req, plain)
+                            ops.append("TPlainReply %d" % j); log.append(["ordinary rpc reply", j, plain])
                         else:
                             k = fresh(kind)
                             w.reply(req, {"errorType": "E%d" % k, "errorMessage": "worker error"})
